@@ -31,6 +31,9 @@ EXPLANATION += (
 EXPLANATION += (
     ' C13.8 - attributes(field): every lookup in the store of variant header arrays by a key that comes from the caller holds, on every path, a fact that the key is stored there (membership test, or the FileOffset test of the template entry); otherwise a field that is constant through the file raises KeyError. C13.9 - text[0]: every character conversion between the stored textual header and the caller is total and gives one unit per stored byte (single-byte code pages; ascii only with errors=replace; no ignore / expanding handler; no multi-byte codec), so the 40 x 80 card layout survives.'
 )
+EXPLANATION += (
+    ' C13.10 - attributes(field) must return an object that indexes like segyio\'s (an int selects a length-1 array): decided from what the callable bound to `attributes` returns (bare array expression vs. package class with __getitem__). On the current tree this is the known finding D49.'
+)
 ASSUMPTIONS = ['segyio yields all lines for f.iline[:] whatever the sign of the line increment', 'names denote what they say']
 NOT_DECIDED = ('Kind/shape/key equality with segyio, which line numbers a stepped slice selects, the values of '
                'attributes(field)[...] and the characters of text[0] (segyio uses its own EBCDIC table), bin, tools.dt values, '
@@ -61,6 +64,7 @@ def run(ctx):
     from .. import fieldrules as FR
     FR.constant_fields(ctx, 'C13.8')
     FR.text_codec(ctx, 'C13.9')
+    FR.attributes_kind(ctx, 'C13.10')
     ctx.rule('C13.1', 'accessor triples carry one axis; emulator binds accessors to the attribute of that axis')
     ctx.rule('C13.2', 'default stop of an open-ended line slice lies beyond the last key in the direction of step')
     ctx.rule('C13.3', '2D files: iline / xline / depth_slice refuse with the dimensionality error')
@@ -132,7 +136,14 @@ def run(ctx):
             else:
                 ctx.fail('C13.1', em, a, 'f.samples is bound to `%s`' % U(a.value))
         elif name == 'attributes':
-            if U(a.value) == 'self.get_tracefield_1d':
+            # the method itself, or a callable that passes its field argument to it (possibly wrapping the result)
+            v = a.value
+            reaches = U(v) == 'self.get_tracefield_1d'
+            if isinstance(v, ast.Lambda) and len(v.args.args) == 1:
+                p0 = v.args.args[0].arg
+                reaches = any(isinstance(c, ast.Call) and U(c.func) == 'self.get_tracefield_1d' and len(c.args) == 1 and
+                              U(c.args[0]) == p0 and not c.keywords for c in ast.walk(v.body))
+            if reaches:
                 ctx.ok('C13.1', em, a, 'f.attributes(field) reads the 1D tracefield array')
             else:
                 ctx.fail('C13.1', em, a, 'f.attributes is bound to `%s`' % U(a.value))
